@@ -20,6 +20,7 @@ fn main() {
         | "front-witness" => front::witness(rest),
         | "front-replay" => front::replay(rest),
         | "span-witness" => front::span_witness(rest),
+        | "literal-tokens" => front::literal_tokens(rest),
         | "front-a3" => front::assumption_a3(rest),
         | "host-witness" => host::witness(rest),
         | "roles-witness" => roles::witness(rest),
